@@ -20,6 +20,7 @@
 #include <cmath>
 #include <map>
 #include <memory>
+#include <stdexcept>
 #include <string>
 #include <utility>
 #include <vector>
@@ -68,6 +69,9 @@ struct Obj
     std::string kind;  //!< coverage class
     ci::SPConstObject obj;
     so::SP ora;
+    //! Non-empty: the library refused to construct this (valid) leaf; `obj` is null and
+    //! build() rethrows the message as std::runtime_error for every program that uses the leaf
+    std::string error;
 };
 
 //---------------------------------------------------------------------------//
@@ -96,6 +100,17 @@ inline std::vector<ld> ldvec(std::vector<double> const& v)
     return std::vector<ld>(v.begin(), v.end());
 }
 }  // namespace detail
+
+//! Number of leaves of the base zoo (what enumerate(thorough) without `extended` iterates over)
+constexpr int num_base_leaves = 50;
+//! Half height of the "gpt*" leaves (GenPrism ends with coincident vertices)
+constexpr double gpt_hz = 1.0;
+//! For the leaves whose end face has a duplicate among its leading three vertices: which end
+//! (-1 lower, +1 upper, 0: not such a leaf)
+inline int leaddup_end(std::string const& leaf_name)
+{
+    return leaf_name == "gptlo" ? -1 : leaf_name == "gpthi" ? 1 : 0;
+}
 
 //! The leaf alphabet: every primitive x >= 2 parameter sets, hollow / sliced solids,
 //! 2-segment polycones and polyprisms.  Sizes ~1-2 so that translated copies overlap partially.
@@ -374,6 +389,42 @@ inline std::vector<Obj> make_leaves()
             std::make_shared<so::PolySolid>(ldvec(in), ldvec(out), ldvec(z), sector(0.3, 0.8), 4,
                                             0.5L));
     }
+    // ---- EXTENDED leaves (index >= num_base_leaves; only enumerate(thorough, true) uses them) ----
+    // -- GenPrism end faces written the G4GenericTrap way: a triangle given by four points, two
+    //    consecutive ones coinciding.  All lateral faces are planar (a quadrilateral end is the
+    //    same triangle with the corner opposite the duplicate cut off), hz = 1.
+    {
+        auto add_gp = [&](std::string name, std::string kind, VR2 lo, VR2 hi) {
+            so::SP ora = std::make_shared<so::GenPrism>(ld(gpt_hz), poly(lo), poly(hi));
+            try
+            {
+                add(name, kind, shape(name, ci::GenPrism{gpt_hz, lo, hi}), ora);
+            }
+            catch (std::exception const& e)
+            {
+                L.push_back({name, kind, nullptr, ora, e.what()});
+            }
+        };
+        // lower face: v0 == v1 (duplicate among the LEADING three vertices)
+        add_gp("gptlo", "genprism-leaddup-lo",
+               VR2{{0.8, -0.8}, {0.8, -0.8}, {0.8, 0.8}, {-0.8, 0.0}},
+               VR2{{0.6, -0.7}, {0.8, -0.6}, {0.8, 0.8}, {-0.8, 0.0}});
+        // upper face: v1 == v2
+        add_gp("gpthi", "genprism-leaddup-hi",
+               VR2{{0.8, -0.8}, {0.8, 0.6}, {0.6, 0.7}, {-0.8, 0.0}},
+               VR2{{0.8, -0.8}, {0.8, 0.8}, {0.8, 0.8}, {-0.8, 0.0}});
+        // triangular prism, both faces with v0 == v1
+        add_gp("gptboth", "genprism-leaddup-both",
+               VR2{{0.8, -0.8}, {0.8, -0.8}, {0.8, 0.8}, {-0.8, 0.0}},
+               VR2{{0.7, -0.6}, {0.7, -0.6}, {0.7, 0.6}, {-0.5, 0.0}});
+        // controls: duplicate NOT among the leading three: v2 == v3 (lower), v3 == v0 (upper)
+        add_gp("gpttail", "genprism-dup-tail",
+               VR2{{0.8, -0.8}, {0.8, 0.8}, {-0.8, 0.0}, {-0.8, 0.0}},
+               VR2{{0.8, -0.8}, {0.8, 0.8}, {-0.6, 0.1}, {-0.6, -0.1}});
+        add_gp("gptwrap", "genprism-dup-wrap",
+               VR2{{0.8, -0.6}, {0.8, 0.8}, {-0.8, 0.0}, {0.6, -0.7}},
+               VR2{{0.8, -0.8}, {0.8, 0.8}, {-0.8, 0.0}, {0.8, -0.8}});
+    }
     return L;
 }
 
@@ -519,6 +570,22 @@ inline std::vector<Xf> make_transforms()
         x.t[0] = 5e-9, x.t[1] = 0, x.t[2] = -2e-9;
         v.push_back(x);
     }
+    // ---- EXTENDED transforms (never part of the base enumeration) ----
+    // mirror pair: +-1/12 turn about x, both centred at the same point of the rotation axis.  A
+    // z-symmetric curved leaf placed under both gives two general quadrics that differ ONLY in
+    // the sign of their cross terms (second/first/zeroth coefficients are identical)
+    for (int sgn : {1, -1})
+    {
+        Xf x;
+        x.name = sgn > 0 ? "tiltp" : "tiltm";
+        so::M3 m = so::rotation_about({1, 0, 0}, ld(sgn) / 12);
+        for (int i = 0; i < 3; ++i)
+            for (int j = 0; j < 3; ++j)
+                x.r[i][j] = double(m.m[i][j]);
+        x.rotates = true;
+        x.t[0] = 0.4, x.t[1] = 0, x.t[2] = 0;
+        v.push_back(x);
+    }
     return v;
 }
 inline std::vector<Xf> const& transforms()
@@ -530,6 +597,7 @@ constexpr int num_unary_transforms = 10;  // without "tiny"
 constexpr int num_binary_transforms = 11;
 constexpr int num_daughter_transforms = 7;
 constexpr int xf_tr = 1, xf_gen = 6, xf_tinyrot = 9, xf_tiny = 10;
+constexpr int xf_tiltp = 11, xf_tiltm = 12;
 
 inline Obj transformed(Obj const& o, Xf const& x)
 {
@@ -1066,13 +1134,16 @@ struct Key
     }
 };
 
-//! The finite program space of a tier, in a fixed order
-inline std::vector<Key> enumerate(bool thorough)
+//! The finite program space of a tier, in a fixed order.  `extended` = false: the base zoo (50
+//! leaves, kinds u/b/n/c/p/t; what C19 re-uses); true: additionally the extended leaves in kind u
+//! and the extension families appended at the end (see enumerate_extension).
+inline void enumerate_extension(bool thorough, std::vector<Key>& keys);
+inline std::vector<Key> enumerate(bool thorough, bool extended = false)
 {
     std::vector<Key> keys;
-    int const nl = int(leaves().size());
+    int const nl = num_base_leaves;
     // unary: leaf x transform x {plain, negated} x placement (x daughter transform)
-    for (int a = 0; a < nl; ++a)
+    for (int a = 0; a < (extended ? int(leaves().size()) : nl); ++a)
         for (int xa = 0; xa < num_unary_transforms; ++xa)
             for (int neg = 0; neg < 2; ++neg)
                 for (int pl = 0; pl < num_placements; ++pl)
@@ -1178,7 +1249,44 @@ inline std::vector<Key> enumerate(bool thorough)
                             keys.push_back(k);
                         }
     }
+    if (extended)
+        enumerate_extension(thorough, keys);
     return keys;
+}
+
+//! Extension families (C09 only), appended after the base zoo
+inline void enumerate_extension(bool thorough, std::vector<Key>& keys)
+{
+    int const nb = num_base_leaves;
+    int const nl = int(leaves().size());
+    // c-mirror: the same leaf under the mirror pair of tilts (two general quadrics that differ
+    // only in their cross terms must stay two surfaces)
+    for (int a = 0; a < nb; ++a)
+        for (int op = 0; op < 3; ++op)
+        {
+            Key k;
+            k.kind = 'c';
+            k.a = a, k.b = a, k.xa = xf_tiltp, k.xb = xf_tiltm, k.op1 = op;
+            k.place = pl_implicit;
+            keys.push_back(k);
+        }
+    // b-ext: every extended leaf with three base partners, both operand orders
+    for (int a = nb; a < nl; ++a)
+        for (char const* partner : {"box1", "sph1", "cyl1"})
+            for (int order = 0; order < 2; ++order)
+                for (int op = 0; op < 3; ++op)
+                    for (int xb : {xf_tr, xf_gen})
+                    {
+                        Key k;
+                        k.kind = 'b';
+                        k.a = order ? find_leaf(partner) : a;
+                        k.b = order ? a : find_leaf(partner);
+                        k.op1 = op, k.xb = xb;
+                        k.place = pl_implicit;
+                        k.pxf = xf_gen;
+                        keys.push_back(k);
+                    }
+    (void)thorough;
 }
 
 //! Build the program of a key.  Construction errors of the library propagate as exceptions.
@@ -1191,6 +1299,8 @@ inline Program build(Key const& k)
     std::vector<std::string> tags;
     std::vector<Program::Part> parts;
     auto leaf = [&](int idx, int xf) {
+        if (!L[idx].obj)
+            throw std::runtime_error(L[idx].error);
         tags.push_back("leaf:" + L[idx].kind);
         tags.push_back("xf:" + T[xf].name);
         Obj base = L[idx];
